@@ -206,12 +206,14 @@ def pairing(ctx):
     def dv(p0, p1, box, pbc):
         rec.append((p0, p1, box, pbc))
         return sp.Symbol('D')
-    mk = lambda k: SymObj(None, {'natoms': sp.Symbol('N'), 'atoms': SymObj(None, {'pos': sp.Symbol('pos%d' % k)}, 'atoms%d' % k), 'box': 'box%d' % k, 'pbc': 'pbc%d' % k}, 'system_%d' % k)
+    # mixed periodicity, different in the two systems: the flags reach the kernel as they are (no shortcut for "not fully periodic")
+    PB = {0: (True, False, True), 1: (False, True, True)}
+    mk = lambda k: SymObj(None, {'natoms': sp.Symbol('N'), 'atoms': SymObj(None, {'pos': sp.Symbol('pos%d' % k)}, 'atoms%d' % k), 'box': 'box%d' % k, 'pbc': PB[k]}, 'system_%d' % k)
     s0, s1 = mk(0), mk(1)
-    for ref, want in (('final', ('box1', 'pbc1')), ('initial', ('box0', 'pbc0'))):
+    for ref, want in (('final', ('box1', PB[1])), ('initial', ('box0', PB[0]))):
         del rec[:]
         paths = ev.run_fn(fn, env={'system_0': s0, 'system_1': s1, 'box_reference': ref, 'dvect': dv})
-        ok = len(rec) == 1 and rec[0][0] == sp.Symbol('pos0') and rec[0][1] == sp.Symbol('pos1') and (rec[0][2], rec[0][3]) == want
+        ok = len(rec) == 1 and rec[0][0] == sp.Symbol('pos0') and rec[0][1] == sp.Symbol('pos1') and (rec[0][2], tuple(rec[0][3])) == want
         ctx.ob('PAIRING', loc, "box_reference=%r: separation from system_0's to system_1's positions under %s's box and periodicity (both from the same system)" % (ref, 'system_1' if ref == 'final' else 'system_0'),
                ok, str([(str(r[0]), str(r[1]), r[2], r[3]) for r in rec]), node=fn, key='pair ' + ref)
     del rec[:]
